@@ -149,6 +149,15 @@ pub fn damages(t: &Tail, im: &Image, values: &[u8]) -> Vec<Damage> {
         let len = im.files.get(&format!("{seg}_index.wal")).map_or(0, |b| b.len());
         let start = t.recs.iter().filter(|r| r.0 == seg).map(|r| r.1).min().unwrap();
         for cut in start..len {
+            // huge tails: every offset of the first 64 and the last 300 bytes, around every 4 KiB boundary, and every 997th
+            let span = len - start;
+            if span > 30_000 {
+                let rel = cut - start;
+                let near_page = rel % 4096 <= 1 || rel % 4096 == 4095;
+                if !(rel < 64 || len - cut <= 300 || near_page || rel % 997 == 0) {
+                    continue;
+                }
+            }
             v.push(Damage::Truncate { seg, len: cut });
         }
     }
@@ -157,6 +166,13 @@ pub fn damages(t: &Tail, im: &Image, values: &[u8]) -> Vec<Damage> {
         // checksum = header bytes 8..40, payload = off+44..off+len
         let positions = (off + 8..off + 40).chain(off + HDR..off + len);
         for p in positions {
+            // huge payloads: the checksum, the first and last 64 payload bytes and every 997th
+            if len > 30_000 {
+                let rel = p - off;
+                if !(rel < HDR + 64 || off + len - p <= 64 || rel % 997 == 0) {
+                    continue;
+                }
+            }
             for &x in values {
                 let val = if x == 0 { 0 } else { bytes[p] ^ x };
                 if val != bytes[p] {
@@ -287,6 +303,8 @@ pub fn plan(tier: &str) -> Vec<(Cfg, Vec<Op>)> {
     v.push((c(10_000), vec![put(0, C_X), Op::Checkpoint, put(1, C_X), put(2, C_Y)]));
     v.push((c(10_000), vec![put(0, C_X), Op::Checkpoint, put(1, C_Y), put(0, C_Y), Op::Remove { k: 1 }]));
     v.push((c(3), vec![put(0, C_X), put(1, C_X), Op::Checkpoint, put(2, C_Y), put(0, C_Y)]));
+    // a record above 64 KiB (70,000-byte key); its payload ends in the zero high bytes of the size field
+    v.push((c(10_000), vec![put(1, C_X), Op::Put { k: HUGE, c: C_X, ch: 0 }]));
     // identical consecutive records
     v.push((c(10_000), vec![put(0, C_X), put(0, C_X), put(1, C_Y)]));
     v.push((c(10_000), vec![put(0, C_X), Op::Checkpoint, put(1, C_Y), put(1, C_Y), put(1, C_Y)]));
